@@ -34,6 +34,8 @@ def ty_matches(t, s):
         return s.startswith('crate::') and s.endswith('::' + t[1])
     return False
 
+HARNESS_ENV = {'PXHARNESS_TEXT': '1'}
+
 def generate(rng, tier):
     n = 250 if tier == 'quick' else 5000
     o = gen.Opts(p_impl=0.9, p_vftable=0.2, p_base=0.3, p_enum=0.1, p_backend=0.0, p_extern_val=0.0, max_modules=2,
@@ -70,7 +72,8 @@ def generate(rng, tier):
                     c = replace_at(c, impl_p[:-1], newparent)
             c[1] = c[1] + '-' + kind
         out.append(c)
-    return out
+    from .. import o4exec
+    return out + o4exec.exec_worlds(rng, 10 if tier == 'quick' else 200, **dict(p_impl=0.85, p_vftable=0.2, p_cc=0.5))
 
 def mkopt_(x):
     return [S('some'), x]
@@ -167,3 +170,9 @@ def mentions(t, name):
     if k == 'id': return t[1] == name
     if k in ('cptr', 'mptr', 'arr'): return mentions(t[1], name)
     return False
+
+def judge_all(cases, impl, model, tier):
+    # O4 execution: the worlds whose id starts with 'ex' are compiled for the host and their wrappers / accessors RUN
+    from .. import o4exec
+    fs, info = o4exec.judge_exec(ID, cases, impl, tier)
+    return fs, info, []
